@@ -325,6 +325,14 @@ def _exec_contingency(net, op, i, ctx):
     own_first = fc is not None and bool(net[fc[0]].at[fc[1], "in_service"])
     if own_first:
         ctx.probe("own_outage_first")
+    # precondition of run_contingency: every branch table carries a loading limit (templates without the column
+    # and elements created afterwards get the documented default; otherwise every case fails with a KeyError)
+    for et in BRANCHES:
+        if len(net[et]):
+            if "max_loading_percent" not in net[et].columns:
+                net[et]["max_loading_percent"] = 100.
+            elif net[et]["max_loading_percent"].isna().any():
+                net[et]["max_loading_percent"] = net[et]["max_loading_percent"].fillna(100.)
     snap = oracles.snapshot(net)
     rec = Recorder(net, ctx, op.get("fail_at") or [])
     for _ in op.get("fail_at") or []:
@@ -388,6 +396,15 @@ def _exec_contingency(net, op, i, ctx):
             ctx.conclusive += 1
         ctx.features.append(f"{outcome}|{n_cases}|{own_first}|{len(failed)}")
         ctx.event("contingency", outcome, n_cases, [c["case"] for c in rec.calls], sigs)
+        return
+    if fired is not None:
+        # the injected exception was swallowed by run_contingency's own handler (raise_errors=False): the case in
+        # which it fired counts as failed, although its evaluation at the seam returned - the extremes are then
+        # legitimately incomplete; only the restore oracle above applies
+        ctx.probe("injected_fault_swallowed_as_failed_case")
+        ctx.conclusive += 1
+        ctx.features.append(f"swallowed|{n_cases}|{own_first}|{len(failed)}")
+        ctx.event("contingency", "swallowed", n_cases, [c["case"] for c in rec.calls], sigs)
         return
     failed_present = bool(failed)
     sigs += check_result(net, res, rec, case_dict, op, i, ctx, own_first, failed_present)
